@@ -228,7 +228,9 @@ def _run(c):
     from . import c13gen as G
     c.rule = ('function-level arrays generated through the public API (arithmetic, numpy ops, indexing, sums, stack/concatenate, field/dotarg, '
               'transcendental functions) over a pool of 10 Arguments (float scalars/vectors/matrices, int scalars); replacement maps: renames, swaps, chains, '
-              'expressions mentioning replaced arguments, constants, absent keys, nested maps, in every documented spelling; integrals / samples on 4 small meshes; '
+              'expressions mentioning replaced arguments, constants, absent keys, nested maps, in every documented spelling; integrals / samples on 4 small meshes; per-case pools whose arguments '
+              'have 3-4 axes of (mostly) pairwise different lengths (replace, linearize / derivative, factor with first and second derivative and derivative through a replacement); trees of '
+              'integrals / boundary / interface / sub-topology integrals connected by replacements inside the integrand or around the integral, 2-4 levels deep; '
               'a case is non-trivial when the manipulated array depends on >= 1 argument that the manipulation touches; distinct by nutils hash of the lowered result')
     c.assumptions += ['complex arguments are not generated', 'integer arguments and axis lengths are sampled, real arguments are symbolic',
                       'symbolic "same" relies on Props/Poly soundness of the polynomial normal form; the evaluator is executed, not kernel-reduced',
@@ -802,7 +804,7 @@ def _run(c):
 
     c.log('stream many-axes generated')
     # =============================================================================== stream 3d: nested replacements in / around integrals (V)
-    nested_stream(c, batch, function, G, rng, topos, 16 if quick else 160, speceval)
+    nested_stream(c, batch, function, G, rng, topos + G.more_topologies(), 25 if quick else 200, speceval)
 
     c.log('stream nested generated')
     # =============================================================================== stream 4: spellings (M + oracle)
@@ -1033,11 +1035,14 @@ def nested_stream(c, batch, function, G, rng, topos, N, speceval):
     Specification: evaluate bottom-up — every replaced argument bound to the value of its replacement (Lean: staged binding of the
     separately lowered components; real code: staged `function.eval` of the components)."""
     from . import ser
+    state = collections.Counter()
+    batch.add([], lambda: c.obligation('corr:nested-loop-ids', not state['ids-reported'] and state['ids-checked'] > 0, 'correspondence',
+                                       '%d lowered constructions: no element loop nested (through replacements inside integrands) in a loop of the same id' % state['ids-checked']))
     for i in range(N):
         tname, topo, geom = topos[i % len(topos)]
         depth = rng.choice([2, 3, 3, 3, 4])
         try:
-            top, free = G.nested_case(rng, tname, topo, geom, depth, friendly=rng.random() < .6)
+            top, free = G.nested_case(rng, tname, topo, geom, depth, friendly=rng.random() < .5)
             nodes = list(top.nodes_postorder())
             comps = {nd.ident: nd.component() for nd in nodes}
             R = top.build(rng)
@@ -1059,14 +1064,14 @@ def nested_stream(c, batch, function, G, rng, topos, N, speceval):
             c.failing_input('replace:announced-arguments-wrong', '.arguments of a nested replacement is not the set of unreplaced arguments', dict(replay, expected=sig_of(want)))
         values = G.sample_values(rng, want)
 
-        def staged(vals, top=top, nodes=nodes, comps=comps):
+        def staged(vals, uniform=False, top=top, nodes=nodes, comps=comps):
             env = dict(vals)
             # post-order: the value of every node is computed after the values of its children are bound to its own arguments
             out = {}
             for nd in nodes:
                 e = dict(env)
                 for a, (ch, where) in nd.children.items(): e[a] = out[ch.ident]
-                k, v = feval(function, comps[nd.ident], e)
+                k, v = feval(function, nd.component(uniform=True) if uniform else comps[nd.ident], e)
                 if k != 'ok': return k, v
                 out[nd.ident] = v
             return 'ok', out[top.ident]
@@ -1076,17 +1081,46 @@ def nested_stream(c, batch, function, G, rng, topos, N, speceval):
             c.count('nested:components-do-not-evaluate'); continue
         c.case(('nested', top.describe(), tname), nontrivial=bool(top.children))
 
-        def attribute(kind, got, top=top, values=values, wantv=wantv, risky=risky):
-            """root cause of a failing nested case: the open finding (an integral replaced from outside by an array containing an integral)
-            iff the same construction with those replacements moved inside the integrands — equal by the property — evaluates correctly"""
+        mixed = any(nd.kind in ('boundary', 'subtopo', 'interfaces') for nd in nodes)     # integrals over samples with different numbers of elements
+        # ---- mechanism: element loops nested through inside replacements carry different ids (`_sample_<nesting depth>` in `_Integral.lower`)
+        k_, e_ = X.guarded(lambda: (top.build(rng, force_inside=True) if risky else R).as_evaluable_array, 30)
+        if k_ == 'ok':
+            state['ids-checked'] += 1
+            if nested_same_loop_id(e_) and not state['ids-reported']:
+                state['ids-reported'] = True
+                found = chain_search(function, max(3, min(chain, 4)))
+                if found is not None:
+                    c.failing_input('replace:nested:loop-id-reused-by-nested-element-loops', 'integrals nested through replacements inside integrands reuse a loop id; a chain of such integrals over '
+                                    'samples of different element counts does not evaluate to the staged value', dict(replay, chain=found[0], real_result=found[1], real_expected=found[2]))
+                else:
+                    c.broken_no_input('corr:nested-loop-ids', 'integrals nested through replacements inside integrands reuse a loop id (the lowering no longer names element loops after their nesting depth)', replay)
+
+        def variants(top=top, risky=risky, mixed=mixed):
+            """constructions that the property makes equal to (or that have the nesting structure of) the failing one, without the features of the
+            open finding — loops of independently lowered integrals share an id and collide when one ends up inside the other, which needs a
+            replacement from outside or element loops of different lengths: (name, force_inside, uniform)"""
+            if risky: yield 'all-inside', True, False
+            if mixed: yield 'all-inside-uniform-domain', True, True
+
+        def id_reused(top=top):
+            """with every replacement inside its integrand the element loops are nested by construction and must carry different ids
+            (`_sample_<nesting depth>`); a reused id is NOT the open finding (that needs a replacement from outside or independent integrals)"""
+            k, e = X.guarded(lambda: top.build(rng, force_inside=True).as_evaluable_array, 30)
+            return k == 'ok' and nested_same_loop_id(e)
+
+        def attribute(kind, got, top=top, values=values, wantv=wantv, staged=staged):
+            """root cause of a failing nested case: the open finding iff a variant without its features evaluates correctly"""
             detail = dict(real_expected=tolist(wantv), arguments={k: tolist(v) for k, v in values.items()})
             detail.update(eval_failure_plain(kind, got) if kind != 'ok' else dict(real_result=tolist(got)))
-            if risky:
-                kv, gv = X.guarded(lambda: numpy.asarray(function.eval(top.build(rng, force_inside=True), values)), 30)
-                if kv == 'ok' and X.arrays_close(gv, wantv, rtol=1e-9, atol=1e-11):
-                    c.count('nested:outside-by-integral:collision(known-finding)')
-                    return dict(detail, signature=OUTSIDE_SIG)
-                detail['all_inside_variant'] = tolist(gv) if kv == 'ok' else repr(gv)
+            if id_reused():
+                return dict(detail, signature='replace:nested:loop-id-reused-by-nested-element-loops')
+            for name, fi, uni in variants():
+                kw, wv = staged(values, uniform=True) if uni else ('ok', wantv)
+                kv, gv = X.guarded(lambda: numpy.asarray(function.eval(top.build(rng, force_inside=fi, uniform=uni), values)), 30)
+                if kw == 'ok' and kv == 'ok' and X.arrays_close(gv, wv, rtol=1e-9, atol=1e-11):
+                    c.count('nested:loop-id-collision(known-finding):fixed-by-' + name)
+                    return dict(detail, signature=OUTSIDE_SIG, variant_that_evaluates_correctly=name)
+                detail['variant:' + name] = tolist(gv) if kv == 'ok' else repr(gv)
             return dict(detail, signature='replace:nested:' + ('value-differs' if kind == 'ok' else 'evaluation-raises:' + (type(got).__name__ if kind == 'exception' else kind)))
 
         kr, got = feval(function, R, values, timeout=30)
@@ -1095,7 +1129,7 @@ def nested_stream(c, batch, function, G, rng, topos, N, speceval):
         if not real_bad: c.count('nested-replace:agrees-with-staged-real-evaluation')
         if real_bad:
             d = attribute(kr, got)
-            c.count('nested-replace:violation' if d['signature'] != OUTSIDE_SIG else 'nested-replace:known-finding')
+            c.count('nested-replace:violation' if c.match_known(d['signature']) is None else 'nested-replace:known-finding')
             c.failing_input(d.pop('signature'), what, dict(replay, **d))
             continue
         # ---- Lean: staged binding of the separately lowered components == the lowered nested construction
@@ -1133,11 +1167,11 @@ def nested_stream(c, batch, function, G, rng, topos, N, speceval):
             d = json.loads(l); d['op'] = 'expr'; d.update(extra); reqs.append(d)
 
         li = len(roots) - 1
-        def handler(a_sym, a_conc, R=R, L=L, P=P, got=got, allv=allv, values=values, dvals=dvals, replay=replay, staged=staged, what=what, li=li, top=top, risky=risky):
+        def handler(a_sym, a_conc, R=R, L=L, P=P, got=got, allv=allv, values=values, dvals=dvals, replay=replay, staged=staged, what=what, li=li, top=top, variants=variants, id_reused=id_reused):
             out = settle(c, 'nested-replace', a_sym['binds'][0], a_conc['binds'][0], a_conc['results'][1], lambda: (False, {}), 'replace:nested:value-differs', what, replay)
             spec_eval(c, speceval, a_conc['results'][1], got, 'nested replacement', replay)
             if L is None: return
-            def confirm_one(L_):
+            def confirm_one(L_, uniform=False):
                 kl, lv = feval(function, L_, allv, timeout=30)
                 if kl != 'ok': return True, dict(eval_failure(L_, kl, lv), signature='linearize:nested:evaluation-raises')
                 errs = []; fd = None
@@ -1145,7 +1179,7 @@ def nested_stream(c, batch, function, G, rng, topos, N, speceval):
                     plus = dict(values); minus = dict(values)
                     for k, v in P.items():
                         plus[k] = values[k] + h * dvals[v]; minus[k] = values[k] - h * dvals[v]
-                    k1, fp = staged(plus); k2, fm = staged(minus)
+                    k1, fp = staged(plus, uniform); k2, fm = staged(minus, uniform)
                     if k1 != 'ok' or k2 != 'ok': return False, {}
                     fd = (fp - fm) / (2 * h)
                     errs.append(float(numpy.abs(fd - lv).max(initial=0.)))
@@ -1156,12 +1190,15 @@ def nested_stream(c, batch, function, G, rng, topos, N, speceval):
             def confirm_lin():
                 bad, detail = confirm_one(L)
                 ran['compared'] = 'errors_for_decreasing_h' in detail
-                if bad and risky:
-                    # root cause as for the value: the open finding iff the all-inside variant of the construction linearizes correctly
-                    kv, Lv = X.guarded(lambda: function.linearize(top.build(rng, force_inside=True), dict(P)), 30)
-                    if kv == 'ok' and not confirm_one(Lv)[0]:
-                        c.count('nested:outside-by-integral:collision(known-finding)')
-                        detail = dict(detail, signature=OUTSIDE_SIG)
+                if bad and id_reused():
+                    detail = dict(detail, signature='linearize:nested:loop-id-reused-by-nested-element-loops')
+                elif bad:
+                    # root cause as for the value: the open finding iff a variant without its features linearizes correctly
+                    for name, fi, uni in variants():
+                        kv, Lv = X.guarded(lambda: function.linearize(top.build(rng, force_inside=fi, uniform=uni), dict(P)), 30)
+                        if kv == 'ok' and not confirm_one(Lv, uniform=uni)[0]:
+                            c.count('nested:loop-id-collision(known-finding):fixed-by-' + name)
+                            detail = dict(detail, signature=OUTSIDE_SIG, variant_that_linearizes_correctly=name); break
                 return bad, detail
             certified = lambda a: a['binds'][0]['verdict'] == 'same'
             rel = lambda a: a['lins'][0] if certified(a) else dict(a['lins'][0], verdict='differ' if a['lins'][0]['verdict'] == 'same' else a['lins'][0]['verdict'])
@@ -1171,6 +1208,50 @@ def nested_stream(c, batch, function, G, rng, topos, N, speceval):
             if r in ('sym', 'conc') or (r != 'violation' and ran.get('compared')):
                 c.count('nested-linearize:agrees-with-staged-real-evaluation')
         batch.add(reqs, handler)
+
+
+def nested_same_loop_id(e):
+    """the lowered array contains a loop inside the body of a loop with the same id"""
+    for L in e._loops:
+        for dep in L.dependencies:
+            for M in dep._loops:
+                if M is not L and M.loop_id == L.loop_id:
+                    return True
+    return False
+
+
+def chain_search(function, depth, limit=60):
+    """search for a failing input of the real code among chains of `depth` integrals over the same space, every one replacing an argument inside the
+    integrand of the previous one, with all combinations of element counts (interior: 3, boundary: 2, sub-topology: 2 elements of a line mesh).
+    Oracle: staged evaluation.  Returns None or (description, got, want)."""
+    from nutils import mesh
+    topo, geom = mesh.rectilinear([3])
+    basis = topo.basis('std', degree=1); n = len(basis)
+    J = function.J(geom); x = geom[0]
+    doms = {'interior': lambda h: topo.integral(h * J, degree=2), 'boundary': lambda h: topo.boundary.integral(h * function.J(geom), degree=2),
+            'subtopology': lambda h: topo[:2].integral(h * J, degree=2)}
+    tried = 0
+    for combo in itertools.product(doms, repeat=depth):
+        if len(set(combo[1:])) == 1: continue       # equal lengths below the top level: ids may coincide without consequence
+        tried += 1
+        if tried > limit: break
+        fields = [function.field('u%d' % i, basis) for i in range(depth + 1)]
+        integrands = [fields[1]**2 + fields[1] * x] + [basis * fields[i + 1]**2 * (1 + x) for i in range(1, depth)]
+        comps = [doms[d](g) for d, g in zip(combo, integrands)]
+        val = numpy.arange(1., n + 1) / 4
+        ok = True
+        for i in reversed(range(depth)):
+            k, val = feval(function, comps[i], {'u%d' % (i + 1): val})
+            if k != 'ok': ok = False; break
+        if not ok: continue
+        A = None
+        for i in reversed(range(depth)):
+            g = integrands[i] if A is None else function.replace_arguments(integrands[i], {'u%d' % (i + 1): A})
+            A = doms[combo[i]](g)
+        k, got = X.guarded(lambda: numpy.asarray(function.eval(A, {'u%d' % depth: numpy.arange(1., n + 1) / 4})), 30)
+        if k != 'ok' or not X.arrays_close(got, val, rtol=1e-9, atol=1e-11):
+            return ' { '.join(combo) + ' }' * (depth - 1) + ' on mesh.rectilinear([3])', (repr(got) if k != 'ok' else tolist(got)), tolist(val)
+    return None
 
 
 def eval_failure_plain(kind, val):
